@@ -14,6 +14,7 @@ import (
 	_ "github.com/crossplane/crossplane/verifsim/props/c14"
 	_ "github.com/crossplane/crossplane/verifsim/props/c15"
 	_ "github.com/crossplane/crossplane/verifsim/props/c16"
+	_ "github.com/crossplane/crossplane/verifsim/props/c17"
 	_ "github.com/crossplane/crossplane/verifsim/props/c19"
 	_ "github.com/crossplane/crossplane/verifsim/props/c20"
 )
